@@ -64,6 +64,16 @@ def check(ctx, cfg):
     r6(ctx, cfg)
     r7(ctx, cfg)
     r8(ctx, cfg)
+    r9(ctx, cfg)
+
+
+def r9(ctx, cfg):
+    """"with its payload intact ... the module's success or failure is what the caller sees" for the one bank message the wasm module
+    emits itself - the transfer of attached funds: `BankMsg::Send { to_address: recipient, amount }` with exactly the funds
+    given goes to the router, is skipped only when there are none, and its error propagates (the C05.R2 obligations on
+    WasmKeeper::send under C17's id; a "tidied" amount is a different message for a user-supplied bank module)"""
+    from rules import C05
+    C05.r2_send(ctx, cfg, R="C17.R9")
 
 
 def r8(ctx, cfg):
